@@ -628,6 +628,23 @@ func vstoreCase(tr *vtrace, r *vrng, doorkeeper, loading, focus bool) {
 	for len(v.pending) > 0 {
 		v.sink(0, rndv())
 	}
+	if focus {
+		// by construction (not by the luck of the draws): keys that have been resident since before the shard's doorkeeper
+		// was last re-created or emptied are deleted and read - the filter no longer knows them, the map does
+		var res []int
+		v.s.RangeEntry(func(e *Entry[int, int]) { res = append(res, e.key) })
+		sort.Ints(res)
+		for i, k := range res {
+			if i >= 12 {
+				break
+			}
+			v.del(k)
+			v.get(k)
+		}
+		for len(v.pending) > 0 {
+			v.sink(0, rndv())
+		}
+	}
 	v.tick()
 	v.views()
 	v.rng()
